@@ -473,6 +473,8 @@ class Grid(Combinator[List[List[T]]]):
         # an explicit size of 0 is a size, not "unset"
         height = self._height if self._height is not None else env.height
         width = self._width if self._width is not None else env.width
+        if height < 0 or width < 0:
+            raise ValueError("grid size must not be negative")
         seq_combinator = Seq(self._base, height * width)
 
         tmp = seq_combinator.deserialize(env, data, idx)
@@ -560,6 +562,8 @@ class Rooms(Combinator[RoomsType]):
     ) -> Optional[Tuple[int, List[RoomsType]]]:
         height = env.height
         width = env.width
+        if height < 1 or width < 1:
+            raise ValueError("board size must be positive")
 
         combinator = Tupl(
             Grid(MultiDigit(base=2, digits=5), height=height, width=width - 1),
